@@ -704,6 +704,23 @@ func (p *Path) newNondet(name string, w uint8) *Term {
 	return v
 }
 
+// Randomness returns an arbitrary value of its range (not replayable natively;
+// the harnesses that reach it do not let the outcome depend on it).
+func init() {
+	for _, n := range []string{"math/rand.Intn", "math/rand.Int63n", "math/rand.Int31n"} {
+		reg(n, func(th *Thread, fr *frame, fn *ssa.Function, args []Value) Value {
+			n := args[0].(*Term)
+			k := th.p.ndCount["math/rand"]
+			th.p.ndCount["math/rand"] = k + 1
+			v := NewVar(fmt.Sprintf("math/rand#%d", k), n.W)
+			th.p.assume(Cmp(OpSle, BV(n.W, 0), v))
+			th.p.assume(Cmp(OpSlt, v, n))
+			th.p.w.res.Intrinsics["math/rand: arbitrary value"]++
+			return v
+		})
+	}
+}
+
 var harnessRT map[string]intrinsicFn
 
 func init() {
